@@ -16,6 +16,7 @@ options), the bespoke parsers of set/kill/typeset/getopts/the command line."""
 from engine import RuleSet
 import hirq as H
 import mirq as Q
+import re
 from rules.C19 import (last, unwrap, hloc, callee, pat_keys, guarded_nodes, parents_of)
 
 RS = RuleSet(
@@ -543,6 +544,9 @@ def r3(cx):
     for (a, e), want in cells.items():
         val = ('tuple', [('variant', AS + a, []), ('variant', 'core::option::Option::' + e, [('any',)] if e == 'Some' else [])])
         i, arm = H.first_matching_arm(m, val)
+        if i is None:
+            # the `=` may be carried as a flag instead of its position
+            i, arm = H.first_matching_arm(m, ('tuple', [('variant', AS + a, []), ('lit', e == 'Some')]))
         cx.require(i is not None, 'parse_long_option: cell (%s, %s) not decidable: %s' % (a, e, arm))
         errs = _variants_built(arm['body'], CS + 'ParseError::')
         calls = _calls_named(arm['body']) - {'Err', 'Ok', 'Some'} - errs
@@ -759,3 +763,67 @@ def r5(cx):
     if len(names) > 1:
         cx.violation(root, 'sig-prefix-differs', 'the spellings of the signal operand use different SIG-prefix settings: %s' % sorted(names),
                      loc=sites[0][0].loc(sites[0][2]))
+
+
+@RS.rule('C20.R3b', 'K-TAINT', 'long option `--name=value`: what is cut off the field is measured in the text the user typed (position of `=`), '
+         'never by the length of the full option name of the table (the name may be abbreviated)')
+def r3b(cx):
+    import mirq as Q
+    import pp
+    F = cx.F
+    fn = CS + 'parse_long_option'
+    n = 0
+    for body in F.logical(fn):
+        du = Q.DefUse(body)
+        seeds = set()
+        for blk, t in body.calls():
+            nm = pp.callee(t)
+            if nm.endswith('OptionSpec::<\'a>::get_long') or nm.endswith('OptionSpec::get_long') or re.search(r'OptionSpec(::<.*>)?::get_long$', nm):
+                seeds.add(t['dest']['l'])
+        cx.fn(body.fn)
+        taint = Q.forward_taint(body, seeds) if seeds else set()
+        cutters = [(blk, t) for blk, t in body.calls() if re.search(r'String::(drain|split_off|replace_range|truncate)$|'
+                                                                       r'str>::(split_at|get)$|SliceIndex<str>>::index$|Index<.*>>::index$',
+                                                                       pp.callee(t))]
+        for blk, t in cutters:
+            n += 1
+            bad = any((Q.operand_place(a) or {}).get('l') in taint for a in t['a'][1:])
+            cx.site('%s: %s at %s; range derived from the table name length: %s' % (body.fn, pp.callee(t).split('::')[-1], body.loc(t), bad))
+            if bad:
+                cx.violation(fn, 'cut-by-table-name-length', 'the field `--name=value` is cut at an offset computed from the length of the '
+                             "option's full name in the table: with an abbreviated name (`--delim=:` for --delimiter) the offset is beyond "
+                             'the `=` the user typed - part of the argument is lost or the slice panics', loc=body.loc(t))
+    cx.require(n >= 1, 'parse_long_option no longer cuts the field (anchor moved: review how the attached argument is extracted)')
+
+
+@RS.rule('C20.R1b', 'K-TABLE', 'ulimit: the long name of each resource option is the name of the resource its short letter selects '
+         '(`-r` and `--rtprio` are the same option because both tables say so)')
+def r1b(cx):
+    F = cx.F
+    tb = tables(cx)
+    key = 'yash_builtin::ulimit::syntax::OPTION_SPECS'
+    cx.require(key in tb, 'ulimit option table not found')
+    h, specs = tb[key]
+    fn = [k for k in F.hir if k.endswith('ResourceExt for yash_env::system::resource::Resource>::option') or
+          (k.startswith('<yash_env::system::resource::Resource as yash_builtin::ulimit::resource::ResourceExt>') and k.endswith('::option'))]
+    cx.require(len(fn) == 1, 'ResourceExt::option for Resource not found (%s)' % fn)
+    cx.fn(fn[0])
+    table, m = H.fn_match_table(F, fn[0], 'yash_env::system::resource::Resource')
+    by_short = {s['short']: s for s in specs}
+    n = 0
+    for variant, (i, arm) in sorted(table.items()):
+        letter = H.lit_value(unwrap(arm))
+        if not isinstance(letter, str) or letter == '\0':
+            continue
+        n += 1
+        spec = by_short.get(letter)
+        cx.cellcount(1)
+        cx.site('ulimit: Resource::%s <-> -%s <-> --%s' % (variant, letter, spec['long'] if spec else None))
+        if spec is None:
+            cx.violation(key, 'resource-without-option:%s' % variant, 'Resource::%s is selected by -%s, which is not in the option table' % (variant, letter),
+                         loc=hloc(h, h['body']))
+        elif spec['long'] != variant.lower():
+            cx.violation(key, 'long-name:%s' % variant, 'the option -%s selects Resource::%s but its long name is --%s: `ulimit --%s` and '
+                         '`ulimit -%s` then act on different resources (the long spelling is not equivalent to the short one)'
+                         % (letter, variant, spec['long'], variant.lower(), letter), loc=hloc(h, h['body']))
+    cx.floor(n, 19, 'resource options of ulimit')
